@@ -62,7 +62,21 @@ var shapesL1 = []string{
 	"1,5", "5,1", "2,5", "5,2", "3,5", "5,3", "1,6", "6,1", "2,6", "6,2", "3,6", "6,3", "4,5", "5,4", "5,5", "4,6", "6,4", "5,6", "6,5", "6,6",
 	"1,1,1", "1,2,3", "3,2,1", "2,2,2", "3,1,2", "1,4,1", "4,1,4", "2,1,5", "5,1,2", "3,3,3", "2,6,1", "1,6,2", "4,2,3",
 	"1,1,1,1", "2,1,1,2", "1,3,1,3", "3,1,3,1", "2,2,2,2", "1,2,3,4", "4,3,2,1",
-	"[2]", "[3]", "[2],2", "2,[2]", "[2,2]", "[2,2],2", "2,[2,2]", "[3],[3]", "[2],[2]", "2,[3]", "[3],2", "[1,3],2", "2,[3,1]", "[[2]],2", "2,[[3]]", "[[2],2]", "[2,[2]]", "[1,1],[1,1]", "1,[1,1]", "1,[4],1", "[6]", "[4,2]",
+	"[2]", "[3]", "[2],2", "2,[2]", "[2,2]", "[2,2],2", "2,[2,2]", "[3],[3]", "[2],[2]", "2,[3]", "[3],2", "[1,3],2", "2,[3,1]", "[[2]],2", "2,[[3]]", "[[2],2]", "[2,[2]]", "[1,1],[1,1]", "1,[1,1]", "1,[[1,1]]", "1,[4],1", "[6]", "[4,2]",
+}
+
+// presets: flows whose wrappers start and end on different named pages (the page created
+// when such a wrapper is cancelled must take the name of its FIRST content). Each preset is
+// explored at every height, alone and with every single further deviation.
+var presetDocs = []string{
+	`1,[[1,1]] #4.page=m`,
+	`1,[[1,1]] #4.page=n`,
+	`1,[[1,1]] #0.page=n #3.page=n #4.page=m`,
+	`1,[[1,1]] #0.page=m #3.page=m #4.page=n`,
+	`1,[[1,1]] #0.page=n #2.page=n #4.page=m`,
+	`2,[[2,2],1] #0.page=n #1.page=n #4.page=m`,
+	`2,[[2,2]] #0.page=n #1.page=n #4.page=m #3.orphans=2`,
+	`1,1,[[1,1]] #0.page=n #1.page=n #2.page=n #5.page=m`,
 }
 
 var shapesThoroughL3 = []string{"1,2", "2,1", "2,2", "1,3", "3,3", "[3]", "[2,2]", "[2],2"}
@@ -127,6 +141,13 @@ func (c *check) Init(tier string, seed int64) engine.Space {
 			nFlow += 1 + m
 		}
 	}
+	for k, d := range presetDocs {
+		s, pre := parseDoc(d)
+		for hi := range c.heights {
+			c.units = append(c.units, unit{fam: famFlow, doc: k, h: hi, level: 4})
+			nFlow += 1 + int64(len(presetExtras(s, pre, thorough)))
+		}
+	}
 	l2 := shapesQuickL2
 	if thorough {
 		l2 = shapesL1
@@ -181,6 +202,23 @@ func ruleTexts() []string {
 	return out
 }
 
+// presetExtras: the single deviations that can be added to a preset (other slots only).
+func presetExtras(s *shape, pre []choice, thorough bool) []choice {
+	var out []choice
+	for _, ch := range choicesFor(s, thorough) {
+		ok := true
+		for _, p := range pre {
+			if sameSlot(p, ch) {
+				ok = false
+			}
+		}
+		if ok {
+			out = append(out, ch)
+		}
+	}
+	return out
+}
+
 func sameSlot(a, b choice) bool { return a.node == b.node && a.slot == b.slot }
 
 func countSets(ch []choice, k int) int64 {
@@ -222,6 +260,10 @@ func (c *check) Describe(u int64) any {
 	case famCounters:
 		return map[string]any{"family": "counters", "cases": un.hi - un.lo}
 	}
+	if un.level == 4 {
+		return map[string]any{"family": "flow", "preset": presetDocs[un.doc], "content_height_px": c.heights[un.h],
+			"cases": "the preset, then the preset with each single further deviation in another slot"}
+	}
 	d := map[string]any{"family": "flow", "shape": c.shapes[un.shape], "content_height_px": c.heights[un.h], "level": un.level}
 	ch := choicesFor(parseShape(c.shapes[un.shape]), c.tier == "thorough")
 	switch un.level {
@@ -261,6 +303,15 @@ func (c *check) Run(u int64, ctx *engine.Ctx) {
 		}
 	case famFlow:
 		thorough := c.tier == "thorough"
+		if un.level == 4 {
+			s, pre := parseDoc(presetDocs[un.doc])
+			H := c.heights[un.h]
+			c.runFlow(ctx, s.spec, H, pre)
+			for _, x := range presetExtras(s, pre, thorough) {
+				c.runFlow(ctx, s.spec, H, append(append([]choice(nil), pre...), x))
+			}
+			return
+		}
 		spec := c.shapes[un.shape]
 		ch := choicesFor(parseShape(spec), thorough)
 		H := c.heights[un.h]
@@ -363,6 +414,15 @@ func flowFeatures(s *shape, f *flow, H int, dev []choice, primary *mresult) []st
 	}
 	if f.firstSide[0] != "" {
 		set["side-break-before-first-block"] = true
+	}
+	// wrappers whose first and last paragraphs are on different named pages
+	for pi := 0; pi+1 < len(f.paras); pi++ {
+		a, b := f.paras[pi], f.paras[pi+1]
+		for k := 0; k < len(a.path)-1 && k < len(b.path)-1 && a.path[k] == b.path[k]; k++ {
+			if a.page != b.page {
+				set["wrapper-start-end-page-differ"] = true
+			}
+		}
 	}
 	if H%10 != 0 {
 		set["height-not-multiple-of-line"] = true
@@ -519,6 +579,33 @@ func pageInvariants(H float64, ops []opage) []mismatch {
 	return ms
 }
 
+// nameInvariant: every page that holds content has the name required by the FIRST content
+// placed on it; with widths, every page has the width its own name selects.
+func nameInvariant(f *flow, ops []opage, widths bool) []mismatch {
+	pageOf := map[string]string{}
+	for g := range f.lines {
+		pageOf[lineLabel(f.lines[g].p, f.lines[g].i)] = f.paras[f.lines[g].p].page
+	}
+	var ms []mismatch
+	for k, p := range ops {
+		if len(p.texts) > 0 {
+			if want, ok := pageOf[p.texts[0]]; ok && want != p.name {
+				ms = append(ms, mismatch{"page-name", fmt.Sprintf("page %d starts with %s whose page is %q but the page type has name %q", k, p.texts[0], want, p.name)})
+			}
+		}
+		if widths {
+			w := float64(pageW)
+			if p.name == "m" {
+				w = pageWm
+			}
+			if !near(p.width, w) || !near(p.mt, 10) || !near(p.ml, 0) || !near(p.mr, 0) || !near(p.mb, 0) {
+				ms = append(ms, mismatch{"page-geometry", fmt.Sprintf("page %d (%s): content width %g margins t=%g r=%g b=%g l=%g; its name selects width %g margins 10 0 0 0", k, p.typeString(), p.width, p.mt, p.mr, p.mb, p.ml, w)})
+			}
+		}
+	}
+	return ms
+}
+
 func counterMismatch(ops []opage, at string) []mismatch {
 	for k, p := range ops {
 		want := fmt.Sprintf("%d/%d", k+1, len(ops))
@@ -575,6 +662,7 @@ func (c *check) runFlow(ctx *engine.Ctx, spec string, H int, dev []choice) {
 
 	var ms []mismatch
 	ms = append(ms, pageInvariants(float64(H), ops)...)
+	ms = append(ms, nameInvariant(f, ops, true)...)
 	fi := forcedInvariant(f, ops)
 	ms = append(ms, fi...)
 	if len(fi) == 0 {
@@ -677,6 +765,7 @@ func (c *check) runCascade(ctx *engine.Ctx, doc int, seq []int) {
 	// page sequence (types) against the placement reference
 	var ms []mismatch
 	ms = append(ms, pageInvariants(1e6, ops)...)
+	ms = append(ms, nameInvariant(f, ops, false)...)
 	fi := forcedInvariant(f, ops)
 	ms = append(ms, fi...)
 	if len(fi) == 0 {
